@@ -216,8 +216,11 @@ func c10Scenarios(tier string) []engine.Scenario {
 func init() {
 	engine.Register(&engine.Property{
 		ID: "C10", Level: "model_checking",
-		Rule:  "E1 (one browser, all modules, e-mail authorisation on; a second configuration with expire instead of remember) collects every reachable session state; from every distinct state a logout is sent on a clone with each HTTP method, over a grid of whitelists and configured methods; classes = distinct session shapes (key sets) and session kinds reached",
-		Units: func(tier string) []engine.Unit { return e1Units(c10Scenarios(tier)) },
+		Rule: "E1 (one browser, all modules, e-mail authorisation on; a second configuration with expire instead of remember) collects every reachable session state; from every distinct state a logout is sent on a clone with each HTTP method, over a grid of whitelists and configured methods; classes = distinct session shapes (key sets) and session kinds reached",
+		Units: func(tier string) []engine.Unit {
+			scs := c10Scenarios(tier)
+			return e1Units(append(scs, configVariants(scs[:4], tier, "nil-state", "err500", "nomount")...))
+		},
 		Need: []string{"kind:logged-in", "kind:half-authed", "kind:logged-in-2fa", "kind:mid-2fa-totp", "kind:mid-2fa-sms", "kind:mid-setup-totp", "kind:mid-setup-sms", "kind:mid-oauth2",
 			"kind:mid-email-verify", "kind:email-authorised", "kind:cookie-only", "kind:app-keys", "logout:configured-method", "logout:other-method"},
 		Assumptions: []string{"flash_success / flash_error written by the logout response itself are part of that response (form mode)", "bounded depth, one browser"},
